@@ -135,9 +135,9 @@ pub fn tzerr(out: &mut String, e: &TzError) {
 pub fn err(out: &mut String, e: &Error) {
     match e {
         #[cfg(feature = "tz-alloc")]
-        Error::Io(_) => {
-            // (the text of an I/O error is the platform's; its presence and the chain are compared)
-            out.push_str("Err(Io");
+        Error::Io(io) => {
+            // (the text of an I/O error is the platform's, but the same on both sides of every comparison made here)
+            let _ = write!(out, "Err(Io '{io}' '{e}'");
             sources(out, e);
             out.push(')');
         }
